@@ -135,7 +135,7 @@ def _coef(ctx, J, eps):
     ctx.prec = wppi
     pipower = {}
     pipower[0] = ctx.one
-    pipower[1] = ctx.pi
+    pipower[1] = +ctx.pi     # a number at this precision, not the lazy constant
     for n in range(2,2*newJ+1):
         pipower[n] = pipower[n-1]*ctx.pi
 
